@@ -25,7 +25,7 @@ func recordH2(r *hk.Run, o h2obs) {
 	judge(r, obs{Stack: "h2", Spec: h1spec{Name: o.Spec.Name}, Kind: o.Kind, StepName: o.StepName, Racy: o.Racy,
 		Call: o.Call, CallErr: o.CallErr, Body: o.Body, BodyErr: o.BodyErr, Returned: o.Returned, Quiesced: o.Quiesced,
 		Stuck: o.Stuck, Leaked: o.Leaked, ReqBody: o.ReqBody, ReqBodyClosed: o.ReqBodyClosed, ReadsAfter: o.ReadsAfter,
-		FollowOK: o.FollowOK, FollowErr: o.FollowErr, Complete: o.Complete, Harness: o.Harness, PeerFailed: o.PeerFailed})
+		FollowOK: o.FollowOK, FollowErr: o.FollowErr, Complete: o.Complete, Harness: o.Harness, PeerFailed: o.PeerFailed, ReaderStuck: o.ReaderStuck})
 	// the peer must be told: a stream whose HEADERS went out and which was not closed on both sides
 	// when the context ended has to be reset (RFC 9113 8.1.1 / 5.4.2), or the peer keeps working on it
 	if o.Harness == "" && o.Returned && o.StreamSeen && !o.Complete && !o.Racy && o.Kind != "none" && !realTimer(o.Kind) && o.Rst != 8 && !o.PeerFailed {
@@ -330,6 +330,9 @@ func judge(r *hk.Run, o obs) {
 	}
 	if o.ReqBody && !o.ReqBodyClosed {
 		fail("body-not-closed", "the request body was never closed")
+	}
+	if o.ReaderStuck {
+		fail("upload-goroutine-stuck", "after everything had settled a goroutine of the library was still parked inside the request body's Read (the body was not closed, or nobody was left to notice)")
 	}
 	if o.ReadsAfter > 0 {
 		fail("upload-continues", fmt.Sprintf("%d Read calls on the request body after the call had returned", o.ReadsAfter))
